@@ -3,6 +3,7 @@ package checks
 import (
 	"bytes"
 	"fmt"
+	"runtime"
 	"strings"
 
 	"github.com/wollac/iota-crypto-demo/pkg/bech32"
@@ -148,6 +149,110 @@ func runC05(c *core.Ctx) {
 			}
 		}
 	}
+	// intermediate values of the checksum computation steered to special values. Appending six symbols XORs their 30 bits
+	// into the running polymod, so the last six data symbols (with 8m symbols = 5m whole bytes of data) or the last six
+	// characters of the prefix can be chosen such that the state after the data / after the expanded prefix is exactly
+	// 0, 1, 2, all ones, a single bit, the Bech32m constant ... (an incremental implementation that treats one of them as
+	// "nothing absorbed yet", "done" or "invalid" shows here and nowhere else).
+	{
+		targets := []uint32{0, 1, 2, 3, 0x3fffffff, 1 << 29, 1 << 25, 1 << 5, 0x2bc830a3, 0x3b6a57b2}
+		sixOf := func(v uint32) []byte {
+			o := make([]byte, 6)
+			for i := 0; i < 6; i++ {
+				o[i] = byte(v >> uint(5*(5-i)) & 31)
+			}
+			return o
+		}
+		steered := 0
+		for _, h := range []string{"a", "iota", "smr", "tb", strings.Repeat("x", 20)} {
+			for _, m := range []int{1, 2, 3, 5} {
+				for _, tgt := range targets {
+					// state after the data = tgt
+					sym := make([]byte, 8*m)
+					for i := range sym[:8*m-6] {
+						sym[i] = byte((i*7 + m*3 + len(h)) % 32)
+					}
+					base := rb.Polymod(append(append(rb.HrpExpand(h), sym[:8*m-6]...), 0, 0, 0, 0, 0, 0))
+					copy(sym[8*m-6:], sixOf(base^tgt))
+					if rb.Polymod(append(rb.HrpExpand(h), sym...)) != tgt {
+						c.Abort("cannot steer the polymod to %#x", tgt)
+						return
+					}
+					data, ok := rb.ConvertBits(sym, 5, 8, false)
+					if !ok || len(data) != 5*m {
+						continue
+					}
+					steered++
+					if c05Judge(c, h, data, "steered-state-after-data") {
+						nontriv++
+					}
+					if c05Judge(c, strings.ToUpper(h), data, "steered-state-after-data") {
+						nontriv++
+					}
+				}
+			}
+		}
+		// state after the expanded prefix = tgt: the last six prefix characters carry the low 5 bits; their high bits are
+		// fixed (3: characters ` a..z { | } ~ minus upper case) so that only the low parts have to be solved for
+		for _, stem := range []string{"", "a", "net", "tiotaprefix"} {
+			for _, tgt := range targets {
+				tail := []byte("``````")
+				full := stem + string(tail)
+				exp := rb.HrpExpand(full)
+				cur := rb.Polymod(exp)
+				low := sixOf(cur ^ tgt) // XOR into the six last low parts, which are the last six expanded values
+				okc := true
+				for i := 0; i < 6; i++ {
+					ch := byte(0x60 | (tail[i]&31 ^ low[i]))
+					if ch < 33 || ch > 126 || (ch >= 'A' && ch <= 'Z') {
+						okc = false
+					}
+					tail[i] = ch
+				}
+				full = stem + string(tail)
+				if !okc || rb.Polymod(rb.HrpExpand(full)) != tgt {
+					continue
+				}
+				for _, d := range [][]byte{{}, {0}, {0xde, 0xad, 0xbe, 0xef, 0x01}} {
+					steered++
+					if c05Judge(c, full, d, "steered-state-after-prefix") {
+						nontriv++
+					}
+				}
+			}
+		}
+		c.Set("steered_intermediate_states", int64(steered))
+	}
+
+	// a rejected call, then a call: whatever a failed Decode or Encode leaves behind (scratch buffers handed back dirty) must
+	// not show in the next result. One OS thread, so that per-P pools hand back what was just put. Invalid character at
+	// every data index x following Encode of every data length 0..24.
+	{
+		done := make(chan struct{})
+		go func() {
+			defer close(done)
+			runtime.LockOSThread()
+			defer runtime.UnlockOSThread()
+			good := rb.EncodeSymbols("test", make([]byte, 40))
+			for i := 5; i < len(good); i++ {
+				for _, badc := range []byte{'b', 'B', 0x80} {
+					bad := good[:i] + string([]byte{badc}) + good[i+1:]
+					for l := 0; l <= 24; l += 1 + l/8 {
+						data := make([]byte, l)
+						for k := range data {
+							data[k] = byte(k*3 + l)
+						}
+						core.Catch(func() { bech32.Decode(bad) })
+						core.Catch(func() { bech32.Encode("Te", []byte{1}) }) // rejected Encode (mixed case)
+						core.Catch(func() { bech32.Decode(bad) })
+						c05Judge(c, "test", data, "after-rejected-call")
+					}
+				}
+			}
+		}()
+		<-done
+	}
+
 	// mixed case placements
 	for m := 0; m < 8; m++ {
 		h := []byte("abc")
